@@ -454,8 +454,9 @@ func init() {
 		}
 		for _, n := range lens {
 			out = append(out, Inst{Pkg: "knx", Fn: "HarnessC12Out", Args: []int64{0, n}, Unwind: 2000},
-				Inst{Pkg: "knx", Fn: "HarnessC12Out", Args: []int64{1, n}, Unwind: 2000},
-				Inst{Pkg: "knx", Fn: "HarnessC12E2E", Args: []int64{n}, Unwind: 2000})
+				// router client built by the real constructor on the redirected socket: engine-only
+				Inst{Pkg: "knx", Fn: "HarnessC12Out", Args: []int64{1, n}, Unwind: 2000, NoNative: true},
+				Inst{Pkg: "knx", Fn: "HarnessC12E2E", Args: []int64{n}, Unwind: 2000, NoNative: true})
 		}
 		for kind := int64(0); kind <= 10; kind++ {
 			for _, n := range []int64{1, 2, 16} {
@@ -473,7 +474,7 @@ func init() {
 		Quick:    func(l *loaded) []Inst { return c12(false) },
 		Thorough: func(l *loaded) []Inst { return c12(true) },
 		Covers:   []string{"C12.out.end", "C12.in.surfaced", "C12.in.filtered", "C12.e2e.end", "C12.outseq.end"},
-		Bounds:   "outbound: all three commands, every source/destination/payload byte symbolic, payload lengths {0,1,2,15,16,254} (thorough 0..254), through GroupTunnel.Send (TCP-mode tunnel on the in-memory socket) and GroupRouter.Send; inbound: one message of every cEMI kind (L_Data req/con/ind with application or control unit, L_Raw x3, L_Busmon, unsupported) with all fields symbolic fed to the real serveGroupInbound goroutine, all interleavings of the three goroutines; end to end through knxnet.Pack/Unpack",
+		Bounds:   "outbound: all three commands, every source/destination/payload byte symbolic, payload lengths {0,1,2,15,16,254} (thorough 0..254), through GroupTunnel.Send (TCP-mode tunnel on the in-memory socket) and through GroupRouter.Send of a client built by the real NewGroupRouter (socket constructor redirected; the datagram bytes written are decoded again, so the first payload byte is compared in its low six bits and an empty payload as one zero byte); inbound: one message of every cEMI kind (L_Data req/con/ind with application or control unit, L_Raw x3, L_Busmon, unsupported) with all fields symbolic fed to the real serveGroupInbound goroutine, all interleavings of the three goroutines; end to end through knxnet.Pack/Unpack",
 		Outside:  "payloads above 254 bytes; more than one message per inbound run (ordering is C17)",
 	})
 
